@@ -10,6 +10,9 @@ OVERLAY = {"agent/utils/zz_verif_common_test.go": "agent_utils/verif_common_test
 CAP = 4096
 
 
+MODEL_MAX_SIZE = 300000
+
+
 class C06(Prop):
     pid = "C06"
     props_file = "Props/C06.v"
@@ -105,7 +108,11 @@ class C06(Prop):
     def model_check(self, ctx, obs):
         items, rows = [], []
         small_reads = 0
+        too_large = 0
         for r in obs["scripted"]:
+            if r["case"]["size"] > MODEL_MAX_SIZE:
+                too_large += 1   # the model replays the stream as an explicit list: streams of megabytes are judged by the oracle only
+                continue
             evs = []
             for e in r["events"]:
                 if e["k"] == "read":
@@ -134,7 +141,7 @@ class C06(Prop):
             mism.append(("ReplayCheck.check_%s" % ("upload" if kind == "scripted" else "lingering"),
                          {1: "the model cannot replay the observed read/fail/ack events", 2: "the attempts observed differ from the model's", 3: "the model and the implementation disagree on whether the upload loop has returned"}.get(code, str(code)),
                          {"case": r["case"], "events": r["events"][:40], "attempts": r["attempts"], "returned": r["returned"]}))
-        return mism, len(rows), {"coqc_s": round(dt, 2), "cases": len(rows), "reads_smaller_than_buffer": small_reads}
+        return mism, len(rows), {"coqc_s": round(dt, 2), "cases": len(rows), "reads_smaller_than_buffer": small_reads, "not_replayed_in_the_model(stream larger than %d bytes)" % MODEL_MAX_SIZE: too_large}
 
     def coverage(self, ctx, obs):
         hist = collections.Counter()
